@@ -12,7 +12,8 @@ from crverif.core import Facet, Violation
 RULE = ("fresh TrafficLightCycle per case; expected state = explicit list of colours of one period indexed by "
         "(t - offset) mod total")
 ASSUMPTIONS = ["durations are positive ints, offset >= 0 (the statement's domain)",
-               "a fresh cycle object per case (memoisation under mutation is C11's business)"]
+               "a fresh cycle object per case; in a third of the generated cases the cycle gets its offset through the "
+               "public setter after one query (longer mutation histories are C11's business)"]
 
 COLOURS = [c.name for c in TrafficLightState]
 
@@ -30,7 +31,13 @@ def check(recipe, ctx):
     bounds = set(itertools.accumulate(durations))
     for mode in ("cycle", "light"):
         elements = [TrafficLightCycleElement(TrafficLightState[c], d) for c, d in zip(colours, durations)]
-        cycle = TrafficLightCycle(elements, time_offset=offset)
+        if recipe.get("initial_offset") is not None:
+            # the cycle reaches its offset through the public setter after it has been queried once
+            cycle = TrafficLightCycle(elements, time_offset=recipe["initial_offset"])
+            cycle.get_state_at_time_step(ts[0])
+            cycle.time_offset = offset
+        else:
+            cycle = TrafficLightCycle(elements, time_offset=offset)
         obj = cycle
         if mode == "light":
             obj = TrafficLight(7, np.array([1.0, 2.0]), cycle)
@@ -75,6 +82,7 @@ def strategy(tier):
         "offset": st.one_of(st.integers(0, 50), st.integers(0, 3)),
         "ts": st.lists(st.one_of(st.integers(-100, 400), st.integers(-5, 60), st.integers(1000, 100000)),
                        min_size=1, max_size=8),
+        "initial_offset": st.one_of(st.none(), st.none(), st.integers(0, 50)),
     }))
 
 
